@@ -398,9 +398,10 @@ func c30OtherArchConsts(goarch string) (map[string]int64, error) {
 	build.Default.CgoEnabled = false
 	defer func() { build.Default = saved }()
 	src := importer.ForCompiler(fset, "source", nil)
+	sizes := types.SizesFor("gc", goarch)
 	conf := types.Config{
-		Sizes:    types.SizesFor("gc", goarch),
-		Importer: c30Importer{src},
+		Sizes:    sizes,
+		Importer: c30Importer{src, sizes.Sizeof(types.Typ[types.Int]) * 8},
 		Error:    func(error) {}, // the rest of the package is not loaded: undefined names are expected
 	}
 	pkg, _ := conf.Check("fasthttp", fset, files, nil)
@@ -435,12 +436,17 @@ func c30OtherArchConsts(goarch string) (map[string]int64, error) {
 	return res, nil
 }
 
-// c30Importer really imports only math and strconv (whose constants are needed) and hands
-// out empty packages for everything else.
-type c30Importer struct{ src types.Importer }
+// c30Importer imports math from source (under the target architecture), synthesises
+// strconv with IntSize = the target's int size (strconv itself cannot be type-checked from
+// source for a foreign GOARCH: internal/abi needs goexperiment build tags) and hands out
+// empty packages for everything else.
+type c30Importer struct {
+	src     types.Importer
+	intBits int64
+}
 
 func (c c30Importer) Import(path string) (*types.Package, error) {
-	if path == "math" || path == "strconv" {
+	if path == "math" {
 		return c.src.Import(path)
 	}
 	name := path
@@ -448,6 +454,9 @@ func (c c30Importer) Import(path string) (*types.Package, error) {
 		name = path[i+1:]
 	}
 	p := types.NewPackage(path, name)
+	if path == "strconv" {
+		p.Scope().Insert(types.NewConst(token.NoPos, p, "IntSize", types.Typ[types.UntypedInt], constant.MakeInt64(c.intBits)))
+	}
 	p.MarkComplete()
 	return p, nil
 }
